@@ -91,6 +91,8 @@ pub enum G {
     WithState(u64, Box<G>),
     /// `(NestedDelims s e ((s1 e1) ..))`: `recovery::nested_delimiters`
     NestedDelims(u32, u32, Vec<(u32, u32)>),
+    /// `(Padded ws a)`: `a.padded()`; `ws` = the whitespace characters of the alphabet in use (checked against `char::is_whitespace`)
+    Padded(Vec<u32>, Box<G>),
 }
 
 #[derive(Clone, Copy, Debug, PartialEq)]
@@ -118,6 +120,8 @@ pub enum IT {
     /// last field: which bounds the configuring closure sets from `n = val_count(ctx)`:
     /// 0 = exactly(n), 1 = at_least(n), 2 = at_most(n), 3 = none (config returned unchanged)
     IRepCfg(G, usize, Option<usize>, usize),
+    /// `(IIntoIter a)`: `a.map(val_items).into_iter()`
+    IIntoIter(G),
 }
 
 #[derive(Clone, Copy, Debug, PartialEq, Eq, Hash)]
@@ -700,6 +704,7 @@ pub fn parse_g(tk: Tk, s: &Sexp) -> R<G> {
         ("NestedIn", [a]) => G::NestedIn(bg(a)?),
         ("ExtWrap", [a]) => G::ExtWrap(bg(a)?),
         ("Skip", [n]) => G::Skip(nat(n)?),
+        ("Padded", [ws, a]) => G::Padded(toks(tk, ws)?, bg(a)?),
         ("Lazy", [a]) => G::Lazy(bg(a)?),
         ("WithState", [k, a]) => G::WithState(k.nat()? as u64, bg(a)?),
         ("NestedDelims", [s, e, others]) => {
@@ -736,6 +741,7 @@ pub fn parse_it(tk: Tk, s: &Sexp) -> R<IT> {
         ("IMap", [f, i]) => IT::IMap(parse_fn1(f)?, bit(i)?),
         ("IMapWith", [m, i]) => IT::IMapWith(parse_mw(m)?, bit(i)?),
         ("IOrNot", [a]) => IT::IOrNot(parse_g(tk, a)?),
+        ("IIntoIter", [a]) => IT::IIntoIter(parse_g(tk, a)?),
         ("IRepCfg", [a, lo, hi]) => IT::IRepCfg(parse_g(tk, a)?, nat(lo)?, opt_nat(hi)?, 0),
         ("IRepCfg", [a, lo, hi, ck]) => IT::IRepCfg(parse_g(tk, a)?, nat(lo)?, opt_nat(hi)?, nat(ck)?),
         _ => return None,
@@ -775,6 +781,7 @@ impl G {
             | G::NestedIn(a)
             | G::ExtWrap(a)
             | G::Lazy(a)
+            | G::Padded(_, a)
             | G::WithState(_, a) => a.has_fnew(),
             G::Then(a, b)
             | G::IgnoreThen(a, b)
@@ -805,7 +812,7 @@ impl G {
 impl IT {
     pub fn has_fnew(&self) -> bool {
         match self {
-            IT::IRep(a, ..) | IT::IOrNot(a) | IT::IRepCfg(a, ..) => a.has_fnew(),
+            IT::IRep(a, ..) | IT::IOrNot(a) | IT::IRepCfg(a, ..) | IT::IIntoIter(a) => a.has_fnew(),
             IT::ISep(a, sep, ..) => a.has_fnew() || sep.has_fnew(),
             IT::IEnum(i) | IT::IMapWith(_, i) => i.has_fnew(),
             IT::IMap(f, i) => *f == Fn1::New || i.has_fnew(),
